@@ -1397,9 +1397,49 @@ func ruleBooleanSchemaOverwrites(c *Ctx, rule string) {
 				targets[b] = true
 			}
 		}
-		okAll := len(through) > 0 && mustPass(sb, through, targets)
+		// (a second test of the same "decoded without error" cannot come out the other way)
+		infeasible := map[[2]*ssa.BasicBlock]bool{}
+		var firstIf *ssa.If
+		for _, p := range sb.Preds {
+			if ifi, ok := p.Instrs[len(p.Instrs)-1].(*ssa.If); ok {
+				firstIf = ifi
+			}
+		}
+		if firstIf != nil {
+			if fb, ok := firstIf.Cond.(*ssa.BinOp); ok {
+				okSucc := 0
+				if firstIf.Block().Succs[1] == sb {
+					okSucc = 1
+				}
+				for _, b := range fn.Blocks {
+					ifi, isIf := b.Instrs[len(b.Instrs)-1].(*ssa.If)
+					if !isIf || ifi == firstIf {
+						continue
+					}
+					if ob, ok := ifi.Cond.(*ssa.BinOp); ok && ob.Op == fb.Op && ob.X == fb.X && sameConstOrValue(ob.Y, fb.Y) {
+						infeasible[[2]*ssa.BasicBlock{b, b.Succs[1-okSucc]}] = true
+					}
+				}
+			}
+		}
+		okAll := len(through) > 0 && mustPassEdges(sb, through, targets, infeasible)
 		c.R.Check(okAll, rule, "boolean-document:receiver-overwritten", c.pos(call), "a boolean schema document overwrites the whole receiver, for true and for false",
 			"a document that is the JSON value true (or false) can be decoded without the receiver being overwritten: a Schema that already holds keywords (a reloaded document, the second of two equal keys) keeps them, so `true` still rejects, or still marks properties as evaluated")
 	})
 	c.R.Floor(rule, "decodings of the document as a boolean", n, 1)
+}
+
+func sameConstOrValue(a, b ssa.Value) bool {
+	if a == b {
+		return true
+	}
+	ka, ok1 := a.(*ssa.Const)
+	kb, ok2 := b.(*ssa.Const)
+	if !ok1 || !ok2 {
+		return false
+	}
+	if ka.IsNil() || kb.IsNil() {
+		return ka.IsNil() && kb.IsNil()
+	}
+	return ka.Value != nil && kb.Value != nil && constant.Compare(ka.Value, token.EQL, kb.Value)
 }
